@@ -423,6 +423,13 @@ def aabb(rep, prog):
     for did, (kind, ax) in role.items():
         d = [v for v in walk(fn["body"]) if v.get("k") == "Var" and v.get("did") == did][0]
         txt = render(d.get("init") or {})
+        if not isinstance(d.get("init"), dict):
+            # declared without a value: the starting value is the first unconditional assignment (e.g. a .fill(v) of the array
+            # the scalar was an element of)
+            firsts = [a for a in walk(fn["body"]) if a.get("k") == "BinaryOperator" and a.get("op") == "=" and strip(a["c"][0]).get("k") == "DeclRefExpr" and strip(a["c"][0])["ref"].get("did") == did]
+            firsts.sort(key=lambda a: fi.order[id(a)])
+            if firsts and fi.enclosing(firsts[0], ("IfStmt", "ForStmt", "WhileStmt", "CXXForRangeStmt", "DoStmt")) is None:
+                txt = render(firsts[0]["c"][1])
         neg = txt.startswith("-")
         if "infinity" not in txt or (kind == "min" and neg) or (kind == "max" and not neg):
             inits_ok = False
@@ -475,8 +482,33 @@ def covariance(rep, prog):
             rep.violation("C12.covariance", prog, fn, n, "cov_%s%s accumulates the wrong product" % (a, b), "%s does not accumulate (p_%s - c_%s)*(p_%s - c_%s)" % (short(n, 80), a, a, b, b))
     mats = [n for n in walk(fn["body"]) if n.get("k") in ("CXXConstructExpr", "CXXTemporaryObjectExpr") and n.get("cls") == "mat33"]
     good = False
+    # a scalar that is written exactly once, unconditionally, as a copy of an accumulator after that accumulator's last update
+    # (the mirrored lower triangle of an array-based matrix) stands for that accumulator
+    alias = {}
+    writes = {}
+    for a_ in walk(fn["body"]):
+        if a_.get("k") in ("BinaryOperator", "CompoundAssignOperator") and (a_.get("op") == "=" or a_.get("k") == "CompoundAssignOperator"):
+            t_ = strip(a_["c"][0])
+            if t_.get("k") == "DeclRefExpr":
+                writes.setdefault(t_["ref"].get("did"), []).append(a_)
+    for did_, ws in writes.items():
+        if did_ in found.values() or len(ws) != 1 or ws[0].get("op") != "=" or ws[0].get("k") != "BinaryOperator":
+            continue
+        src = strip(ws[0]["c"][1])
+        if src.get("k") == "DeclRefExpr" and src["ref"].get("did") in found.values() and fi.enclosing(ws[0], ("IfStmt", "ForStmt", "WhileStmt", "CXXForRangeStmt", "DoStmt")) is None \
+                and all(fi.order[id(w)] < fi.order[id(ws[0])] for w in writes.get(src["ref"]["did"], [])):
+            alias[did_] = src["ref"]["did"]
+    for v_ in walk(fn["body"]):
+        if v_.get("k") == "Var" and v_.get("did") not in found.values() and v_.get("did") not in writes and isinstance(v_.get("init"), dict):
+            src = strip(v_["init"])
+            if src.get("k") == "DeclRefExpr" and src["ref"].get("did") in found.values() and fi.enclosing(v_, ("IfStmt", "ForStmt", "WhileStmt", "CXXForRangeStmt", "DoStmt")) is None \
+                    and all(fi.order[id(w)] < fi.order[id(v_)] for w in writes.get(src["ref"]["did"], [])):
+                alias[v_["did"]] = src["ref"]["did"]
     for m in mats:
         refs = [x["ref"]["did"] for x in walk(m) if x.get("k") == "DeclRefExpr" and x["ref"].get("dk") == "Var"]
+        if any(fi.order[id(w)] > fi.order[id(m)] for r_ in refs if r_ in alias for w in writes.get(r_, [])):
+            continue
+        refs = [alias.get(r_, r_) for r_ in refs]
         if len(refs) == 9:
             idx = "xyz"
             want = []
